@@ -69,7 +69,7 @@ def json_schema(
         map(_param2json_schema_property, intermediate_repr["params"].items())
     )
 
-    return {
+    schema = {
         "$id": identifier,
         "$schema": "https://json-schema.org/draft/2020-12/schema",
         "description": (
@@ -103,6 +103,10 @@ def json_schema(
         "properties": properties,
         "required": required,
     }
+    if schema["description"] is None:
+        # `"description": null` is not valid JSON-schema (and `cdd.json_schema.parse` rejects it)
+        del schema["description"]
+    return schema
 
 
 def json_schema_file(input_mapping, output_filename):
